@@ -889,8 +889,8 @@ theorem jd_spec (e0 : Env) (inv0 : GInv e0.g) (l0 : Loaded0 e0) (plain : PlainD 
         unfold onSuccess; rw [hcur]
       rw [hso] at hg ⊢
       obtain ⟨c1, c2, c3, _, c5⟩ := runCommand_frame e b
-      have hdisc : (runCommand e b).disc = e.disc := by unfold runCommand; rw [hcur]
-      have hcache : (runCommand e b).cache = e.cache := by unfold runCommand; rw [hcur]
+      have hdisc : (runCommand e b).disc = e.disc := by unfold runCommand; rw [hcur]; simp only []; split <;> rfl
+      have hcache : (runCommand e b).cache = e.cache := by unfold runCommand; rw [hcur]; simp only []; split <;> rfl
       have hcur1 : Work.buildOf (runCommand e b).g b = some bm := by rw [c3]; exact hcur
       obtain ⟨r1, _, _, _, r5, _⟩ := recordFinished_gen (runCommand e b) b bm hcur1
         (if readsDeps bm then some (reportedDeps e bm) else none)
